@@ -179,7 +179,17 @@ class HookBroken(Exception):
 
 # what a failing hook raises: "every exception type deriving from Exception" (C15) — among them the ones a library is most likely to
 # treat specially (TypeError: wrong-arity shims; AttributeError / LookupError: duck typing; OSError; AssertionError; TimeoutError)
-HOOK_EXC = [RuntimeError, TypeError, KeyError, ValueError, AttributeError, HookBroken, OSError, AssertionError, TimeoutError, LookupError]
+class Unprintable(Exception):
+    """a hook failure that cannot be rendered: swallowing an exception must not depend on looking at it"""
+
+    def __str__(self):
+        raise AttributeError("this exception has no message")
+
+    __repr__ = __str__
+
+
+HOOK_EXC = [RuntimeError, TypeError, KeyError, ValueError, AttributeError, HookBroken, OSError, AssertionError, TimeoutError, LookupError,
+            Unprintable]
 
 
 def nth(lst, i, default):
@@ -565,6 +575,7 @@ class Shared:
 
                     def record_failure(self, klass):
                         sh.w().trace.append(["SF", sid, getattr(klass, "name", repr(klass))])
+                        CLOCK.ticks += sh.seq.get("rf_cost", 0)      # bookkeeping that takes time (slow-record scripts only; no model)
 
                     def record_success(self):
                         sh.w().trace.append(["SS", sid])
